@@ -82,15 +82,15 @@ pub mod verif_harness {
             "V" => {
                 // same sequence as `verify`, but keeps the final state for printing
                 let (g, c, p) = (unhex(f[1]), unhex(f[2]), unhex(f[3]));
+                // the verdict comes from the real entry point alone (a panic propagates => REJECT)
+                verify(&g, &c, &p);
+                // the final state is not returned by verify(): replay the three phases to print it
                 let mut claims: Claims = vec![]; let mut memory: Memory = vec![]; let mut stack: Stack = vec![];
                 execute_instructions(&g, &mut stack, &mut memory, &mut claims, ExecutionPhase::Gamma);
                 stack.clear();
                 execute_instructions(&c, &mut stack, &mut memory, &mut claims, ExecutionPhase::Claim);
                 stack.clear();
                 execute_instructions(&p, &mut stack, &mut memory, &mut claims, ExecutionPhase::Proof);
-                assert!(claims.is_empty());
-                // and the real entry point must agree
-                verify(&g, &c, &p);
                 format!("ACCEPT {}", show_state(&stack, &memory, &claims))
             }
             "E" => {
